@@ -19,6 +19,11 @@ import ClairModel.Proofs.CvssTemporal
 import ClairModel.Proofs.CvssTemporal2
 import ClairModel.Proofs.CvssOsv
 import ClairModel.Proofs.CvssOsv2
+import ClairModel.Proofs.CvssEnv
+import ClairModel.Proofs.CvssEnvSweepU
+import ClairModel.Proofs.CvssEnvSweepC
+import ClairModel.Proofs.CvssEnvSweepC2
+import ClairModel.Proofs.CvssEnv2
 
 -- every variable of a property statement is bound explicitly: a misspelt name is an error, not a new variable
 set_option autoImplicit false
@@ -111,6 +116,50 @@ theorem v2_temporal_score_eq_spec {av ac au c i a e rl rc : Nat}
       (base2 [av] [ac] [au] [c] [i] [a]).bind fun b =>
         temporal2 b (v2Unparse 6 e) (v2Unparse 7 rl) (v2Unparse 8 rc) :=
   v2_temporal_facts hav hac hau hc hi ha he hrl hrc
+
+/-! ### environmental scores -/
+
+/-- v3.0 and v3.1, every string `ParseV3` accepts that carries an
+    environmental metric (any order, any subset, explicit X, with or without
+    temporal metrics): `V3.Score` — the float expressions evaluated exactly,
+    the code's `v30Roundup` / truncating `v31Roundup` — equals the
+    EnvironmentalScore of specification section 7.3 over the Modified metrics
+    (Not Defined or absent = the Base value), the requirement weights and the
+    temporal weights, with the specification's Roundup (v3.1: Appendix A,
+    round-to-nearest).  v3.0 is structural (the code's expression is the
+    published one and its Roundup the published Roundup, only the
+    representation of the exploitability differs); for v3.1 the two Roundups are
+    compared on the inner argument of all 2 × 84 × 48 (Modified Scope, multiset
+    of requirement×impact products, exploitability) combinations by kernel
+    evaluation and on the temporal step by the 10 100-case table. -/
+theorem v3_environmental_score_eq_spec {s : Bytes} {v : Vec} (h : parse3 s = some v)
+    (he : v3Environmental v = true) :
+    score3 v = env3 v.ver (modified3 (v.get 14) (v.get 0)) (modified3 (v.get 15) (v.get 1))
+      (modified3 (v.get 16) (v.get 2)) (modified3 (v.get 17) (v.get 3)) (modified3 (v.get 18) (v.get 4))
+      (modified3 (v.get 19) (v.get 5)) (modified3 (v.get 20) (v.get 6)) (modified3 (v.get 21) (v.get 7))
+      (orX (v.get 11)) (orX (v.get 12)) (orX (v.get 13)) (orX (v.get 8)) (orX (v.get 9)) (orX (v.get 10)) :=
+  v3_env_facts ⟨envNormOk_U, envNormOk_C, envSweep31_U, envSweep31_C1, envSweep31_C2⟩ envExplOk_U envExplOk_C
+    temporalTable_1 v (parse3_sound h) he
+
+/-- the hypotheses are satisfiable: "CVSS:3.1/AV:N/AC:L/PR:N/UI:N/S:U/C:H/I:H/A:H/CR:H" -/
+example : ∃ v, parse3 [67, 86, 83, 83, 58, 51, 46, 49, 47, 65, 86, 58, 78, 47, 65, 67, 58, 76, 47, 80, 82, 58, 78,
+    47, 85, 73, 58, 78, 47, 83, 58, 85, 47, 67, 58, 72, 47, 73, 58, 72, 47, 65, 58, 72, 47, 67, 82, 58, 72] = some v ∧
+    v3Environmental v = true := by decide
+
+/-- v2, every string `ParseV2` accepts that carries the environmental group:
+    `V2.Score` evaluated exactly equals the EnvironmentalScore of the v2 guide
+    (3.2.3: AdjustedImpact with the cap at 10, AdjustedTemporal, CDP, TD) over
+    the specification's weights of the vector's values (`abbr2`: the value
+    abbreviation, ND for an absent temporal metric).  The float64 evaluation
+    deviates on exact rounding ties (finding v2-float-tie). -/
+theorem v2_environmental_score_eq_spec {s : Bytes} {v : Vec} (h : parse2 s = some v)
+    (he : v2Environmental v = true) :
+    score2 v = env2 (abbr2 v 0) (abbr2 v 1) (abbr2 v 2) (abbr2 v 3) (abbr2 v 4) (abbr2 v 5) (abbr2 v 6) (abbr2 v 7)
+      (abbr2 v 8) (abbr2 v 9) (abbr2 v 10) (abbr2 v 11) (abbr2 v 12) (abbr2 v 13) :=
+  v2_env_facts v (parse2_sound h) he
+
+/-- the hypotheses are satisfiable (the witness of the negative score) -/
+example : ∃ v, parse2 v2NegativeWitness = some v ∧ v2Environmental v = true := by decide
 
 /-! ### tables (re-decided against the regenerated `Gen.Cvss` on every run) -/
 
